@@ -64,11 +64,43 @@ Print Assumptions C18_try_fallback_shared_refuted.
 (* a stack of any length over {try_*, try_back, kwargs_support, cache, loops, pd2np} returns what f returns on
    every call whose keywords are all declared; a raising f raises the same through a stack without try_* *)
 Theorem C18_stack_transparent V R (none : R) (inj : V -> R) (s : sig V) chain (f : call V -> lres R) c :
-  (forall kv, In kv (snd c) -> In (fst kv) (pos s)) ->
-  (forall r, f c = LOk r -> apply_chain none inj s chain f c = LOk r) /\
-  (forall e, f c = LErr e -> ~ In TTry chain -> ~ In TBack chain -> apply_chain none inj s chain f c = LErr e).
-Proof. exact (stack_transparent none inj s chain f c). Qed.
+  (forall kv, In kv (snd c) -> In (fst kv) (pos s)) -> ~ In "axis" (map fst (snd c)) -> ~ In "self" (map fst (snd c)) ->
+  (forall r, f c = LOk r -> call_stack none inj s chain f c = LOk r) /\
+  (forall e, f c = LErr e -> ~ In TTry chain -> ~ In TBack chain -> call_stack none inj s chain f c = LErr e).
+Proof.
+  intros H1 H2 H3. assert (E : call_stack none inj s chain f c = apply_chain none inj s chain f c).
+  { unfold call_stack. destruct chain; [reflexivity|]. rewrite (proj2 (inl_false _ _) H3). reflexivity. }
+  rewrite E. exact (stack_transparent none inj s chain f c H1 H2).
+Qed.
 Print Assumptions C18_stack_transparent.
+
+(* known finding: parameter names that collide with the wrappers' own argument names.  A keyword axis is popped by
+   loops (f silently gets its default: a wrong result), a keyword self cannot reach any wrapper's __call__, a keyword
+   function cannot reach getcallargs - although each is a valid call of f *)
+Theorem C18_reserved_names_refuted :
+  let fn := fun (s : sig Z) (c : call Z) => match bind s c with Some r => LOk r | None => LErr "TypeError" end in
+  let s1 := {| pos := ["a"; "axis"]; defs := [5%Z]; varargs := false; varkw := false |} in
+  let s2 := {| pos := ["a"; "self"]; defs := [5%Z]; varargs := false; varkw := false |} in
+  let s3 := {| pos := ["a"; "function"]; defs := [5%Z]; varargs := false; varkw := false |} in
+  fn s1 ([1%Z], [("axis", 7%Z)]) = LOk [("a", BV 1%Z); ("axis", BV 7%Z)] /\
+  call_stack (R := amap (bval Z)) [] (fun _ => []) s1 [TLoop] (fn s1) ([1%Z], [("axis", 7%Z)]) = LOk [("a", BV 1%Z); ("axis", BV 5%Z)] /\
+  (exists r, fn s2 ([1%Z], [("self", 7%Z)]) = LOk r) /\
+  call_stack (R := amap (bval Z)) [] (fun _ => []) s2 [TCache] (fn s2) ([1%Z], [("self", 7%Z)]) = LErr "TypeError" /\
+  (exists r, bind s3 ([1%Z], [("function", 7%Z)]) = Some r) /\
+  lib_getcallargs_py s3 ([1%Z], [("function", 7%Z)]) = LErr "TypeError".
+Proof. vm_compute. repeat split; eauto. Qed.
+Print Assumptions C18_reserved_names_refuted.
+
+(* without those names the Python entry points are the modelled algorithms *)
+Theorem C18_entry_points V R (none : R) (inj : V -> R) (s : sig V) chain (f : call V -> lres R) c :
+  (~ In "function" (map fst (snd c)) -> lib_getcallargs_py s c = lib_getcallargs s c) /\
+  (~ In "self" (map fst (snd c)) -> call_stack none inj s chain f c = apply_chain none inj s chain f c).
+Proof.
+  split; intros H.
+  - unfold lib_getcallargs_py. rewrite (proj2 (inl_false _ _) H). reflexivity.
+  - unfold call_stack. destruct chain; [reflexivity|]. rewrite (proj2 (inl_false _ _) H). reflexivity.
+Qed.
+Print Assumptions C18_entry_points.
 
 (* kwargs_support(f) for f without **kwargs: f is called without exactly the keywords it does not declare
    (and with the call unchanged when all are declared) *)
